@@ -50,7 +50,13 @@ def main():
         "checks": checks,
         "not_applicable": na,
         "notes": "All checks force PYTHONPATH to /repo's working tree (the venv otherwise imports an installed wheel). "
-                 "Exit 0 held / 1 violation / 2 harness error. KNOWN_FINDINGS.txt lists open and fixed findings.",
+                 "Exit 0 held / 1 violation / 2 harness error. KNOWN_FINDINGS.txt lists open and fixed findings. "
+                 "Where to read: DESIGN.md (approach; section 8 trusted base; section 11 as built), THEOREMS.md (every property theorem with its "
+                 "statement, generated), seeded/README.md (seeded changes and which check reports each; seeded/_harmless: refactorings that "
+                 "must not alarm), mutation/ (AST mutation sweep), audit/ (independent review of statements vs property texts). "
+                 "./check --audit = coqchk -o over the compiled development (Axioms: <none>); ./check --harvest = the repository's own test "
+                 "inputs replayed through the models (also part of every thorough check). VERIF_REPO=<worktree> points a check at a scratch "
+                 "copy of the source (private Coq tree); registered commands always run against /repo.",
     }
     json.dump(m, open(HERE / "MANIFEST.json", "w"), indent=1)
 
